@@ -24,22 +24,43 @@ Sgn == {"neg", "zero", "pos"}                           \* sign of g_i
 HKind == {"zero", "psd_lowrank", "psd_full", "indefinite", "badscale"}
 SetKind == {"ball", "half", "box"}
 
-VARIABLES kernel, n, pos, sgn, hk, sets
-vars == <<kernel, n, pos, sgn, hk, sets>>
+\* Coincidences (trsbox): measure-zero input classes that no random scaling produces, each a distinct path of the truncated conjugate-gradient loop
+\*   bound_on_sphere  the first steepest-descent step meets a bound at a point within a few units of rounding of the trust-region sphere
+\*                    (the remaining free variables continue from a point on the sphere, possibly heading back into the ball)
+\*   tied_bounds      two or more variables reach their bounds at the same step length (equal gradient components, equal room): after the step a
+\*                    free variable sits exactly on the bound it is pushed towards
+Coin == {"none", "bound_on_sphere", "tied_bounds"}
+\* Convex kernels: are the user's sets active inside the trust region?  "inside": every set contains the whole trust region around xopt's neighbourhood
+\* (only the ball binds); "active": every set's boundary passes within the trust region and the descent direction points at it, so the step is decided by
+\* the alternating projections onto the sets AND the ball (rel: two half-spaces in general position / nearly parallel - slow convergence of the projections)
+Act == {"inside", "active"}
+Rel == {"generic", "near_parallel"}
+VARIABLES kernel, n, pos, sgn, hk, sets, coin, act, rel
+vars == <<kernel, n, pos, sgn, hk, sets, coin, act, rel>>
+\* interior coordinates with a non-zero gradient component: those that can be driven into a bound by the first step
+Movable(p, s) == {i \in DOMAIN p : p[i] = "in" /\ s[i] # "zero"}
+CoinOK(c, p, s) == CASE c = "none" -> TRUE
+                     [] c = "bound_on_sphere" -> Cardinality(Movable(p, s)) >= 1
+                     [] c = "tied_bounds" -> Cardinality(Movable(p, s)) >= 2
 
 Init == \/ /\ kernel = "trsbox" /\ n \in 1..MaxN /\ pos \in [1..n -> Pos] /\ sgn \in [1..n -> Sgn] /\ hk \in HKind /\ sets = <<>>
-        \/ /\ kernel = "trsbox_geometry" /\ n \in 1..MaxN /\ pos \in [1..n -> Pos] /\ sgn \in [1..n -> Sgn] /\ hk = "zero" /\ sets = <<>>
+           /\ coin \in Coin /\ CoinOK(coin, pos, sgn) /\ act = "inside" /\ rel = "generic"
+        \/ /\ kernel = "trsbox_geometry" /\ n \in 1..MaxN /\ pos \in [1..n -> Pos] /\ sgn \in [1..n -> Sgn] /\ hk = "zero" /\ sets = <<>> /\ coin = "none" /\ act = "inside" /\ rel = "generic"
         \/ /\ kernel \in {"ctrsbox_pgd", "ctrsbox_geometry", "ctrsbox_sfista"} /\ n \in 2..3 /\ pos = [i \in 1..n |-> "in"] /\ sgn \in [1..n -> {"neg", "pos"}]
+           /\ act \in Act /\ rel \in Rel
+           /\ (act = "active" => sgn = [i \in 1..n |-> "neg"])       \* the gradient is then directed at the sets' boundaries, not by sign pattern
+           /\ (rel = "near_parallel" => act = "active" /\ sets = <<"half", "half">>)
            /\ hk \in {"zero", "psd_full", "psd_lowrank"}
            /\ (kernel = "ctrsbox_pgd" => hk # "zero")    \* the projected-gradient step length is 1/||H||: a zero Hessian is outside its domain (J = 0)
            /\ sets \in {<<a>> : a \in SetKind} \cup {<<a, b>> : a, b \in SetKind}
+           /\ coin = "none"
 Next == UNCHANGED vars
 Spec == Init /\ [][Next]_vars
 
 \* a coordinate whose bound is active and whose gradient pushes outwards is fixed from the start (trsbox's xbdi)
 FixedAtStart(i) == (pos[i] = "atL" /\ sgn[i] \in {"pos", "zero"}) \/ (pos[i] = "atU" /\ sgn[i] \in {"neg", "zero"})
 NFree == Cardinality({i \in 1..n : ~FixedAtStart(i)})
-Emit == PrintT("KERNEL" \o ToJson([kernel |-> kernel, n |-> n, pos |-> pos, sgn |-> sgn, hk |-> hk, sets |-> sets, nfree |-> NFree]))
+Emit == PrintT("KERNEL" \o ToJson([kernel |-> kernel, n |-> n, pos |-> pos, sgn |-> sgn, hk |-> hk, sets |-> sets, nfree |-> NFree, coin |-> coin, act |-> act, rel |-> rel]))
 EmitInv == Emit
 TypeOK == NFree \in 0..n
 ====================================================================================================
